@@ -334,4 +334,16 @@ def gen_C11(rnd, n, tier):
             pre = rnd.choice(["const VAR_RESULT = VAR_TEMP_1\n", "const VAR_TEMP_9 = VAR_RESULT\nconst VAR_RESULT = VAR_TEMP_9\n", "const UNUSED = 3\n"])
             cs.src = pre + cs.src; cs.line = compile_line(cs.cfg, cs.src)
         out.append(cs)
+    # round 15 (appended, fixed): an AutoVar command whose result variable is an ARGUMENT, written with several tokens -
+    # the comparison / switch that follows tests the whole argument
+    for vsrc, vasm in (("VAR_Y + 1", "VAR_Y + 1"), ("(VAR_Y)", "( VAR_Y )"), ("VAR_BASE+VAR_OFS - 2", "VAR_BASE + VAR_OFS - 2")):
+        for form in ("and", "switch", "while", "stmt"):
+            leaf = ("leaf", ("auto", "specialvar(%s, GetThing)" % vsrc, "specialvar %s, GetThing" % vasm, vasm, "op", "==", 2))
+            if form == "and": body = [("if", [(("and", ("leaf", ("flag", "FLAG_A", "")), leaf), [("cmd", "hit", "hit")])], [("cmd", "miss", "miss")]), ("cmd", "after", "after")]
+            elif form == "switch": body = [("cmd", "before", "before"), ("switch", ("auto", "specialvar(%s, GetThing)" % vsrc, "specialvar %s, GetThing" % vasm, vasm), [(1, [("cmd", "one", "one")]), (2, [("cmd", "two", "two")]), (None, [("cmd", "dflt", "dflt")])]), ("cmd", "after", "after")]
+            elif form == "while": body = [("while", leaf, [("cmd", "body", "body")]), ("cmd", "after", "after")]
+            else: body = [("if", [(leaf, [("cmd", "yes", "yes")])], None), ("cmd", "after", "after")]
+            for opt in (True, False):
+                cs = ctrl_case(body, [], opt, tag="argvar-" + form); cs.meta["textleaves"] = False
+                out.append(cs)
     return out
